@@ -521,3 +521,13 @@ def _call_order(B, start):
                 seen.add(s)
                 dq.append(s)
     return out
+
+
+_run_before_scope_rule = run
+
+
+def run(ctx):
+    _run_before_scope_rule(ctx)
+    # the comparison of two terms depends on the two terms only: state a comparison keeps on the thread is put back on every way out
+    from .c15 import scoped_thread_local_restored
+    scoped_thread_local_restored(ctx, 'C12.7-scoped-state-restored')
